@@ -304,7 +304,10 @@ def check_expansion(ctx, FB, exp, md_rows, rows):
                         gargs = args[:len(getter["inputs"]) - 1]
                     try:
                         res = Mini(FB, "wow_world_messages").call_fn(getter["path"], [u] + gargs)
-                    except (Unsupported, Panic) as e:
+                    except Panic as e:
+                        ctx.violate("um.pair", key + "|getter-panic", f"{exp} Update{kind}::{field}({', '.join(show(a) for a in gargs)}) panics: {e}", getter["file"], getter["line"])
+                        break
+                    except Unsupported as e:
                         ctx.violate("um.pair", key + "|getter-shape", f"{exp} Update{kind}::{field}(): shape not recognised — review ({e})", getter["file"], getter["line"])
                         break
                     vals = [a for i, a in enumerate(args) if not (enum_pos and i in enum_pos and gargs)]
@@ -323,7 +326,11 @@ def check_expansion(ctx, FB, exp, md_rows, rows):
                         try:
                             karg = Env(FB).value(ptys[enum_pos[0]], choose=k)
                             r2 = Mini(FB, "wow_world_messages").call_fn(getter["path"], [u, karg])
-                        except (Unsupported, Panic) as e:
+                        except Panic as e:
+                            ctx.violate("um.pair", key + "|getter-panic", f"{exp} Update{kind}::{field}({show(karg)}) panics: {e} (with overflow checks off the value wraps and the getter reads the words of a different element)", getter["file"], getter["line"])
+                            hole_bad = True
+                            break
+                        except Unsupported as e:
                             ctx.violate("um.pair", key + "|hole-shape", f"{exp} Update{kind}::{field}(): not interpretable with a hole — review ({e})", getter["file"], getter["line"])
                             hole_bad = True
                             break
